@@ -29,4 +29,12 @@ class C08(E1Prop):
         return any(t in r.tags for t in self.nontrivial_tags)
 
 
+    def cases(self, rng, n, tier):
+        from ..batchdb import gen
+        for c in super().cases(rng, n, tier):
+            # a share of well-formed two-update histories in which the later update is committed while its parents are Ready / Creating
+            # (job-private) / Running / done, and which then run to the end
+            yield gen.commit_while_parent_busy(rng) if rng.random() < 0.15 else c
+
+
 PROP = C08()
